@@ -1,4 +1,4 @@
-CONSTANTS NV = 2 NL = 3 WS = {1000}
+CONSTANTS NV = 1 NL = 3 WS = {1000}
 SPECIFICATION DSpec
 INVARIANTS EdgesInOrder EndpointsDeclared MachineMatchesRun
 CHECK_DEADLOCK FALSE
